@@ -1,6 +1,7 @@
 INIT InitL
 NEXT NextL
 INVARIANT InvL
+INVARIANT InvL0
 CHECK_DEADLOCK FALSE
 CONSTANTS
   MaxLen = 3
